@@ -222,7 +222,7 @@ func main() {
 		ID: "C25", Level: "model_checking",
 		Rule: "scenario = (items, cores, failing item | failing input iterator position); per scenario every interleaving of dispatcher, workers, errgroup and consumer at the synchronisation points of the rewritten real code plus a yield inside the mapped function. Oracle: the sequence map-parallel yields is map's sequence (run sequentially on the same input), or a prefix of it followed by the error when map fails; the consumer always finishes.",
 		Assumptions: []string{"code between two synchronisation operations runs atomically", "the consumer drains the iterator to its end (the statement does not cover abandoned iterators)"},
-		QuickDeadline: 200e9, ThoroughDeadline: 1500e9, CaseTimeout: 400e9, Chunk: 1,
+		QuickDeadline: 200e9, ThoroughDeadline: 1500e9, CaseTimeout: 400e9, Chunk: 1, WorkerEnv: []string{"GOMAXPROCS=1"},
 		Build: func(tier string) (kit.Space, string) {
 			sc := scenarios(tier)
 			bound, maxExec := 2, int64(30000)
